@@ -21,7 +21,7 @@ type slotSummary struct {
 	occ    string // occupancy test, normalised ("" = none)
 	child  string // child expression, normalised
 	pos    token.Pos
-	why    string // for form == other
+	why    string    // for form == other
 	callee *FuncUnit // dispatch: the per-class method the arm hands the node to
 }
 
@@ -401,6 +401,15 @@ func (c *Ctx) summariseStmts(stmts []ast.Stmt, nodeName, byteVar string, pos tok
 						s.why = "unrecognised statement in loop body"
 						return false
 					case *ast.IfStmt:
+						// if idx := keys[i]; idx != 0 { … }: the init binds a slot alias
+						if as, ok := x.Init.(*ast.AssignStmt); ok && as.Tok == token.DEFINE && len(as.Lhs) == 1 && len(as.Rhs) == 1 {
+							if _, isIdx := ast.Unparen(as.Rhs[0]).(*ast.IndexExpr); isIdx {
+								a.idx[as.Lhs[0].(*ast.Ident).Name] = a.norm(as.Rhs[0])
+								y := *x
+								y.Init = nil
+								x = &y
+							}
+						}
 						if x.Else == nil && x.Init == nil && len(x.Body.List) == 1 {
 							if br, ok := x.Body.List[0].(*ast.BranchStmt); ok && br.Tok == token.CONTINUE {
 								occ = append(occ, a.occFromSkip(x.Cond)...)
@@ -720,6 +729,7 @@ func ruleR09R19(c *Ctx) {
 		return p
 	}
 	enumRef := map[int64]slotSummary{} // reference enumeration (first traversal seen: all)
+	nOutside := 0
 	seenUnit := map[string]bool{}
 	for _, name := range units {
 		if seenUnit[name] {
@@ -727,6 +737,17 @@ func ruleR09R19(c *Ctx) {
 		}
 		seenUnit[name] = true
 		props := propsFor(name)
+		// a traversal that no operation named by a property reaches (a new statistics or debugging
+		// walk) is outside what the properties quantify over
+		ordered := true
+		if uu := m.ByName[name]; uu != nil && name != "nodeRef.findChild" {
+			if len(c.attribute(uu, "C01", "C02", "C03", "C04", "C05", "C08", "C09")) == 0 {
+				nOutside++
+				continue
+			}
+			// the visiting order matters only to the operations that promise one
+			ordered = len(c.attribute(uu, "C02", "C03", "C04", "C05")) > 0
+		}
 		for _, k := range m.Kinds {
 			s, ok := sums[armKey{name, k.Value}]
 			if !ok {
@@ -762,14 +783,14 @@ func ruleR09R19(c *Ctx) {
 				if base == "backward" {
 					wantDir = "asc"
 				}
-				if s.dir != wantDir {
+				if s.dir != wantDir && ordered {
 					errs = append(errs, fmt.Sprintf("pushes in %s order; a stack traversal visiting in %s key order must push %s", s.dir, map[string]string{"desc": "ascending", "asc": "descending"}[wantDir], wantDir))
 				}
 				if r, ok := enumRef[k.Value]; ok && base != "backward" {
-					if r.domain != s.domain || r.occ != s.occ || r.child != s.child || r.dir != s.dir {
+					if r.domain != s.domain || r.occ != s.occ || r.child != s.child || (r.dir != s.dir && ordered) {
 						errs = append(errs, "differs from its sibling traversal: "+r.String())
 					}
-				} else if base != "backward" {
+				} else if base != "backward" && ordered {
 					enumRef[k.Value] = s
 				}
 				if len(errs) == 0 {
@@ -813,6 +834,9 @@ func ruleR09R19(c *Ctx) {
 				}
 			}
 		}
+	}
+	if nOutside > 0 {
+		c.r.note("R09: %d functions with a kind switch are reached by no operation a property names; not examined", nOutside)
 	}
 	c.r.floor("R09", 20, "slot summaries", "C02")
 
@@ -1009,7 +1033,6 @@ func idxOrNil(e ast.Expr) ast.Expr {
 	}
 	return e
 }
-
 
 // searchWrapper: a library function that returns the result of a lane search (searchNode4/16 or
 // another wrapper) or -1. bounded is the index of the parameter p such that every returned search
